@@ -163,6 +163,19 @@ def _num_cmp(op, a, b):
 
 
 # --------------------------------------------------------------------------- tensor
+def _as_index(x):
+    if x is None:
+        return None
+    if isinstance(x, STensor):
+        x = x.item()
+    x = simplify(x)
+    if isinstance(x, Fraction) and x.denominator == 1:
+        x = int(x)
+    if not isinstance(x, int):
+        raise Unsupported(f"non-integer slice bound {x}")
+    return x
+
+
 def _strides(shape: Sequence[int]) -> List[int]:
     st = [1] * len(shape)
     for i in range(len(shape) - 2, -1, -1):
@@ -387,7 +400,9 @@ class STensor:
     def mT(self):
         return self.transpose(-2, -1)
 
-    def unsqueeze(self, d) -> "STensor":
+    def unsqueeze(self, d=None, dim=None) -> "STensor":
+        if dim is not None:
+            d = dim
         nd = self.ndim + 1
         if not -nd <= d < nd:
             raise InterpError("IndexError", "unsqueeze dim out of range")
@@ -396,7 +411,9 @@ class STensor:
         shape.insert(d, 1)
         return self._view(list(self.idx), shape)
 
-    def squeeze(self, d=None) -> "STensor":
+    def squeeze(self, d=None, dim=None) -> "STensor":
+        if dim is not None:
+            d = dim
         if d is None:
             shape = [s for s in self.shape if s != 1]
         else:
@@ -407,6 +424,29 @@ class STensor:
             if shape[d] == 1:
                 del shape[d]
         return self._view(list(self.idx), shape)
+
+    def _become(self, v: "STensor") -> "STensor":
+        self.idx = list(v.idx)
+        self.shape = Size(v.shape)
+        return self
+
+    def squeeze_(self, d=None, dim=None):
+        return self._become(self.squeeze(d, dim))
+
+    def unsqueeze_(self, d=None, dim=None):
+        return self._become(self.unsqueeze(d, dim))
+
+    def transpose_(self, a, b):
+        return self._become(self.transpose(a, b))
+
+    def t_(self):
+        return self._become(self.t())
+
+    def round_(self, decimals=0):
+        r = self.round(decimals)
+        for i, v in zip(self.idx, r.flat()):
+            self.store[i] = v
+        return self
 
     def expand(self, *shape) -> "STensor":
         shape = list(_shape_args(shape))
@@ -469,23 +509,30 @@ class STensor:
         return self._view([self.idx[i * self.shape[1] + i] for i in range(n)], [n])
 
     def _index(self, key) -> Tuple[List[int], List[int]]:
-        """Basic indexing: returns (idx list, new shape)."""
+        """Basic indexing plus adjacent integer-sequence (advanced) indices: returns (idx list, new shape)."""
         if not isinstance(key, tuple):
             key = (key,)
         key = list(key)
-        # tensor-valued integer index (0-d) -> int
         for i, k in enumerate(key):
             if hasattr(k, "cls") and hasattr(k, "value") and isinstance(getattr(k, "value"), int):
                 key[i] = k = k.value  # IntEnum member used as index
             if isinstance(k, STensor):
-                if k.dtype is BOOL or k.numel() != 1:
-                    raise Unsupported("advanced (tensor) indexing")
-                v = simplify(k.flat()[0])
-                if not isinstance(v, int):
-                    raise Unsupported("symbolic index")
-                key[i] = v
-            elif isinstance(k, (list,)):
-                raise Unsupported("list indexing")
+                if k.dtype is BOOL:
+                    raise Unsupported("boolean mask indexing")
+                if k.ndim == 0:
+                    v = simplify(k.flat()[0])
+                    if not isinstance(v, int):
+                        raise Unsupported("symbolic index")
+                    key[i] = v
+                elif k.ndim == 1:
+                    vals = [simplify(x) for x in k.flat()]
+                    if not all(isinstance(v, int) for v in vals):
+                        raise Unsupported("symbolic index tensor")
+                    key[i] = tuple(vals)
+                else:
+                    raise Unsupported("multi-dimensional index tensor")
+            elif isinstance(k, list):
+                key[i] = tuple(k)
         n_real = sum(1 for k in key if k is not None and k is not Ellipsis)
         if Ellipsis in key:
             e = key.index(Ellipsis)
@@ -495,35 +542,54 @@ class STensor:
         if sum(1 for k in key if k is not None) != self.ndim:
             raise InterpError("IndexError", "too many indices for tensor")
         st = _strides(self.shape)
-        ranges: List[Tuple[Optional[int], List[int]]] = []  # (source dim or None, positions)
+        entries: List[List[int]] = []  # per output pseudo-dimension: list of offset contributions
         new_shape: List[int] = []
+        adv_positions = [i for i, k in enumerate(key) if isinstance(k, tuple)]
+        if adv_positions and adv_positions != list(range(adv_positions[0], adv_positions[-1] + 1)):
+            raise Unsupported("non-adjacent advanced indices")
+        L = None
+        if adv_positions:
+            lens = {len(key[i]) for i in adv_positions}
+            if len(lens) != 1:
+                raise Unsupported("advanced indices of different lengths")
+            L = lens.pop()
         d = 0
-        for k in key:
+        adv_done = False
+        adv_offsets = [0] * (L or 0)
+        for pos, k in enumerate(key):
             if k is None:
-                ranges.append((None, [0]))
+                entries.append([0])
                 new_shape.append(1)
                 continue
             size = self.shape[d]
+            if isinstance(k, tuple):
+                for l, v in enumerate(k):
+                    v = simplify(v)
+                    if not isinstance(v, int) or not -size <= v < size:
+                        raise InterpError("IndexError", f"index {v} out of range for dimension {d}")
+                    adv_offsets[l] += (v % size) * st[d]
+                if pos == adv_positions[-1]:
+                    entries.append(list(adv_offsets))
+                    new_shape.append(L)
+                d += 1
+                continue
             if isinstance(k, slice):
-                pos = list(range(*k.indices(size)))
-                ranges.append((d, pos))
-                new_shape.append(len(pos))
+                k = slice(*[_as_index(x) for x in (k.start, k.stop, k.step)])
+                p = list(range(*k.indices(size)))
+                entries.append([x * st[d] for x in p])
+                new_shape.append(len(p))
             else:
                 k = simplify(k)
+                if isinstance(k, Fraction) and k.denominator == 1:
+                    k = int(k)
                 if not isinstance(k, int) or isinstance(k, bool):
                     raise Unsupported(f"index of type {type(k).__name__}")
                 if not -size <= k < size:
                     raise InterpError("IndexError", f"index {k} is out of bounds for dimension {d} with size {size}")
-                ranges.append((d, [k % size]))
+                entries.append([(k % size) * st[d]])
                 new_shape.append(-1)  # dropped
             d += 1
-        idx = []
-        for combo in itertools.product(*[r[1] for r in ranges]):
-            off = 0
-            for (dim, _), p in zip(ranges, combo):
-                if dim is not None:
-                    off += p * st[dim]
-            idx.append(self.idx[off])
+        idx = [self.idx[sum(combo)] for combo in itertools.product(*entries)]
         return idx, [s for s in new_shape if s != -1]
 
     def __getitem__(self, key) -> "STensor":
@@ -620,6 +686,27 @@ class STensor:
 
     def new_ones(self, *shape):
         return ones(*shape, dtype=self.dtype)
+
+    def data_ptr(self):
+        return (id(self.store), self.idx[0] if self.idx else 0)
+
+    def new_empty(self, *shape, **k):
+        return empty(*shape, dtype=k.get("dtype", self.dtype))
+
+    def new_full(self, shape, value, **k):
+        return full(shape, value, dtype=k.get("dtype", self.dtype))
+
+    def allclose(self, other, rtol=1e-5, atol=1e-8, **k):
+        return allclose(self, other)
+
+    def logical_and(self, o):
+        return self._ew(o, lambda x, y: _truth(x) and _truth(y), out_dtype=BOOL)
+
+    def logical_or(self, o):
+        return self._ew(o, lambda x, y: _truth(x) or _truth(y), out_dtype=BOOL)
+
+    def __and__(self, o): return self.logical_and(o)
+    def __or__(self, o): return self.logical_or(o)
 
     def new_tensor(self, data):
         return tensor(data, dtype=self.dtype)
@@ -865,6 +952,10 @@ class STensor:
         return self.square().sum(dim, keepdim).sqrt()
 
     def det(self):
+        if self.ndim > 2:
+            lead = list(self.shape[:-2])
+            flat = self.reshape([-1] + list(self.shape[-2:]))
+            return STensor.from_flat([flat[i].det().flat()[0] for i in range(flat.shape[0])], lead)
         if self.ndim != 2 or self.shape[0] != self.shape[1]:
             raise Unsupported("det of non-square")
         n = self.shape[0]
@@ -1080,10 +1171,21 @@ def sfunc(name: str, x, *more) -> Rat:
             from .ring import declare_square
             if x.den.is_const():
                 declare_square(key, x.num.scale(1 / x.den.const_value()))
+            FACTS.declare_positive(_FUNC_ATOMS[key])
     return _FUNC_ATOMS[key]
 
 
 _FUNC_ARG: Dict[str, Rat] = {}
+
+
+def _reset_caches() -> None:
+    _FUNC_ATOMS.clear()
+    _FUNC_ARG.clear()
+    TRIG_ATOMS.clear()
+
+
+from . import ring as _ring
+_ring._RESET_HOOKS.append(_reset_caches)
 
 
 def sabs(x) -> Rat:
@@ -1340,6 +1442,16 @@ def atan2(y, x):
     return STensor.from_flat([sfunc("atan2", p, q) for p, q in zip(Y.expand(shape).flat(), X.expand(shape).flat())], shape, FLOAT)
 
 
+def triu_indices(row, col, offset=0, **k) -> STensor:
+    r, c = [], []
+    for i in range(row):
+        for j in range(col):
+            if j - i >= offset:
+                r.append(i)
+                c.append(j)
+    return STensor.from_nested([r, c], INT)
+
+
 def meshgrid(*ts, indexing="ij"):
     if len(ts) == 1 and isinstance(ts[0], (list, tuple)):
         ts = tuple(ts[0])
@@ -1356,3 +1468,159 @@ def meshgrid(*ts, indexing="ij"):
                 v = v.unsqueeze(-1)
         out.append(v.expand(shape))
     return tuple(out)
+
+
+# ---- torch.nn.functional.grid_sample: exact on lattice hits, uninterpreted elsewhere; every call is recorded ----------
+GRID_SAMPLE_CALLS: List[Dict[str, Any]] = []
+
+
+def grid_sample(input: STensor, grid: STensor, mode="bilinear", padding_mode="zeros", align_corners=None) -> STensor:
+    """Model of F.grid_sample: (N, C, *spatial) sampled at grid (N, *out, D) of normalised coords in (x, y, z) order.
+
+    Documented semantics (trusted): unnormalise x -> ((x + 1) * n - 1) / 2 (align_corners=False) or (x + 1) / 2 * (n - 1)
+    (True); a sample that falls exactly on a voxel centre returns that voxel for every interpolation mode. Any other sample
+    (fractional or symbolic coordinate) is an opaque value ``gs<call>_<pos>`` — never interpreted further.
+    """
+    if align_corners is None:
+        align_corners = False
+    call_no = len(GRID_SAMPLE_CALLS)
+    GRID_SAMPLE_CALLS.append({"input": input, "grid": grid, "mode": mode, "padding_mode": padding_mode, "align_corners": align_corners})
+    N, C = input.shape[0], input.shape[1]
+    spatial = list(input.shape[2:])
+    D = len(spatial)
+    if grid.shape[0] != N or grid.shape[-1] != D or grid.ndim != D + 2:
+        raise InterpError("RuntimeError", f"grid_sample: input {tuple(input.shape)} vs grid {tuple(grid.shape)}")
+    out_sp = list(grid.shape[1:-1])
+    vals = []
+    inp = input.tolist()
+    g = grid.reshape([N, -1, D]).tolist()
+    npos = _numel(out_sp)
+    for b in range(N):
+        per_c = [[] for _ in range(C)]
+        for k in range(npos):
+            idx = []
+            exact = True
+            for d in range(D):
+                x = to_rat(g[b][k][d])
+                n = spatial[D - 1 - d]  # coordinate d (x first) indexes the last spatial dim first
+                u = ((x + 1) * n - 1) / 2 if not align_corners else (x + 1) / 2 * (n - 1)
+                if u.is_const() and u.const_value().denominator == 1 and 0 <= u.const_value() < n:
+                    idx.append(int(u.const_value()))
+                else:
+                    exact = False
+                    break
+            for c in range(C):
+                if exact:
+                    v = inp[b][c]
+                    for d in reversed(range(D)):
+                        v = v[idx[d]]
+                    per_c[c].append(v)
+                else:
+                    per_c[c].append(Rat.atom(f"gs{call_no}_{b}_{c}_{k}"))
+        for c in range(C):
+            vals.extend(per_c[c])
+    return STensor.from_flat(vals, [N, C] + out_sp, input.dtype if input.dtype.is_floating_point else FLOAT)
+
+
+def fpad(input: STensor, pad, mode="constant", value=None) -> STensor:
+    """Model of F.pad: pad = (last_low, last_high, second_last_low, ...); negative entries crop."""
+    pad = [simplify(p.item() if isinstance(p, STensor) else p) for p in pad]
+    if any(not isinstance(p, int) for p in pad):
+        raise Unsupported(f"pad with non-integer margins {pad}")
+    if len(pad) % 2 or len(pad) // 2 > input.ndim:
+        raise InterpError("RuntimeError", "pad: padding length must be even and at most 2 * ndim")
+    nd = input.ndim
+    lows = [0] * nd
+    highs = [0] * nd
+    for k in range(len(pad) // 2):
+        d = nd - 1 - k
+        lows[d], highs[d] = pad[2 * k], pad[2 * k + 1]
+    new_shape = [input.shape[d] + lows[d] + highs[d] for d in range(nd)]
+    if any(n < 0 for n in new_shape):
+        raise InterpError("RuntimeError", "pad: resulting size negative")
+    if mode not in ("constant", "replicate", "reflect", "circular"):
+        raise Unsupported(f"pad mode {mode}")
+    fill = to_rat(0 if value is None else value)
+    st = _strides(input.shape)
+    vals = []
+    for ix in itertools.product(*[range(n) for n in new_shape]):
+        off = 0
+        inside = True
+        for d in range(nd):
+            i = ix[d] - lows[d]
+            n = input.shape[d]
+            if not 0 <= i < n:
+                if mode == "constant":
+                    inside = False
+                    break
+                if mode == "replicate":
+                    i = min(max(i, 0), n - 1)
+                elif mode == "reflect":
+                    if n == 1:
+                        i = 0
+                    else:
+                        period = 2 * (n - 1)
+                        i = i % period
+                        if i >= n:
+                            i = period - i
+                else:
+                    i = i % n
+            off += i * st[d]
+        vals.append(input.store[input.idx[off]] if inside else fill)
+    return STensor.from_flat(vals, new_shape, input.dtype)
+
+
+def avg_pool(input: STensor, kernel_size, stride=None, padding=0, ceil_mode=False, count_include_pad=True, divisor_override=None) -> STensor:
+    """Model of F.avg_poolNd for (N, C, *spatial) input (documented semantics)."""
+    D = input.ndim - 2
+
+    def tup(x):
+        if isinstance(x, STensor):
+            x = x.tolist()
+        if isinstance(x, (tuple, list)):
+            return [simplify(v) for v in x]
+        return [simplify(x)] * D
+    k = tup(kernel_size)
+    s = k if stride is None else tup(stride)
+    p = tup(padding)
+    if any(pp != 0 for pp in p) or divisor_override is not None:
+        raise Unsupported("avg_pool with padding / divisor_override")
+    sp = list(input.shape[2:])
+    import math
+    out = []
+    for n, kk, ss in zip(sp, k, s):
+        o = (n - kk) / ss + 1
+        o = math.ceil(o) if ceil_mode else math.floor(o)
+        if ceil_mode and (o - 1) * ss >= n:
+            o -= 1
+        out.append(max(o, 0))
+    vals = []
+    inp = input
+    for b in range(input.shape[0]):
+        for c in range(input.shape[1]):
+            for ix in itertools.product(*[range(o) for o in out]):
+                acc = Rat.of(0)
+                cnt = 0
+                for jx in itertools.product(*[range(kk) for kk in k]):
+                    pos = [i * ss + j for i, ss, j in zip(ix, s, jx)]
+                    if all(0 <= q < n for q, n in zip(pos, sp)):
+                        acc = acc + to_rat(inp[(b, c) + tuple(pos)].flat()[0])
+                        cnt += 1
+                vals.append(acc / cnt if cnt else Rat.of(0))
+    return STensor.from_flat(vals, [input.shape[0], input.shape[1]] + out, FLOAT)
+
+
+INTERPOLATE_CALLS: List[Dict[str, Any]] = []
+
+
+def interpolate(input: STensor, size=None, scale_factor=None, mode="nearest", align_corners=None, **k) -> STensor:
+    """F.interpolate is uninterpreted: the call is recorded and an opaque tensor of the requested size is returned."""
+    if size is None:
+        raise Unsupported("interpolate with scale_factor")
+    if isinstance(size, STensor):
+        size = size.tolist()
+    size = [simplify(v.item() if isinstance(v, STensor) else v) for v in (size if isinstance(size, (tuple, list)) else [size] * (input.ndim - 2))]
+    n = len(INTERPOLATE_CALLS)
+    INTERPOLATE_CALLS.append({"input": input, "size": list(size), "mode": mode, "align_corners": align_corners})
+    shape = list(input.shape[:2]) + list(size)
+    return STensor.from_flat([Rat.atom(f"ip{n}_{i}") for i in range(_numel(shape))], shape, FLOAT)
